@@ -181,7 +181,12 @@ def check(prop, tier, seed):
             nontrivial += r['nontrivial']
             disagreements += r['disagreements']
             for v in r.get('violations', []):
-                violations.append(v)
+                if v[0] == '__direct__':
+                    path = write_replay(prop, seed, 100 + len(violations), {'property': prop, 'kind': 'correspondence',
+                                        'correspondence_disagreements': [v[1]], 'broken_obligations': [], 'rerun': './check --replay <this file>'})
+                    violations.append((path, v[1]['difference'] + ': ' + v[1]['request'], False))
+                else:
+                    violations.append(v)
             notes += r.get('notes', [])
     # ---- 3. failing-input search with the property oracle (implementation only)
     oracle = oracles.ORACLES.get(prop)
